@@ -97,6 +97,24 @@ FIXED_SWEEPS = [
 def build_enum(meta, members, style="meta", name="DrawnEnum"):
     """members: [[name, ordinal], ...] in declaration order. Raises whatever class creation
     raises (callers decide whether that is a harness error or a violation)."""
+    if style == "subclass":
+        # a member-less protocol base enum (constructed from before the subclass exists), then the
+        # declared enum as its subclass - a hand-written hierarchy the enum machinery allows
+        bns = meta.__prepare__("BaseProtocolEnum", (IntEnum,))
+        bns["__module__"] = "c14_dynamic"
+        bns["__qualname__"] = "BaseProtocolEnum"
+        base = meta("BaseProtocolEnum", (IntEnum,), bns)
+        try:
+            base(3)
+            base(0)
+        except Exception:  # noqa: BLE001 - the base is only scenery here
+            pass
+        ns = meta.__prepare__(name, (base,))
+        ns["__module__"] = "c14_dynamic"
+        ns["__qualname__"] = name
+        for mname, ordinal in members:
+            ns[mname] = ordinal
+        return meta(name, (base,), ns)
     if style == "meta":
         ns = meta.__prepare__(name, (IntEnum,))
         ns["__module__"] = "c14_dynamic"
@@ -385,9 +403,13 @@ def _raw_members(min_size):
                     min_size=min_size, max_size=8)
 
 
+# ordinals that are exactly 0..n-1 but declared in a drawn (usually non-ascending) order
+_permuted_members = st.integers(2, 7).flatmap(
+    lambda n: st.permutations(list(range(n))).map(lambda p: [(i, o) for i, o in enumerate(p)]))
+
 _seq_raw = st.tuples(
-    st.sampled_from(["meta", "class"]),
-    st.one_of(_raw_members(1), _raw_members(2), _raw_members(4), _raw_members(0)),
+    st.sampled_from(["meta", "class", "subclass"]),
+    st.one_of(_raw_members(1), _raw_members(2), _raw_members(4), _raw_members(0), _permuted_members),
     st.lists(_other, min_size=0, max_size=10),
     st.lists(_selectors, min_size=1, max_size=8),
     st.lists(_selectors, min_size=0, max_size=8),
